@@ -6,5 +6,6 @@ Open Scope Z_scope.
 
 Definition run (prop : bytes) (ops : list (list tok)) : list (list tok) :=
   if beq prop (bs "C20") then run_c20 ops
-  else if beq prop (bs "C01") || beq prop (bs "C03") || beq prop (bs "C04") then run_srv ops
+  else if beq prop (bs "C01") || beq prop (bs "C03") || beq prop (bs "C04")
+          || beq prop (bs "C15") || beq prop (bs "C16") then run_srv ops
   else [[TB (bs "NOMODEL")]].
